@@ -310,12 +310,16 @@ Dies == { [w |-> DieW, h |-> DieH, regs |-> s] : s \in DieSets }
 \* allocations: a few layouts of a 4x2 area; every cell takes a tag, a depth and an occupancy map
 Layouts == { << <<0, 0, 4, 2>> >>, << <<0, 0, 2, 2>>, <<2, 0, 4, 2>> >>, << <<0, 0, 2, 2>>, <<2, 0, 3, 2>> >> }
            \cup (IF Thorough THEN { << <<0, 0, 2, 2>>, <<2, 0, 4, 1>>, <<2, 1, 4, 2>> >> } ELSE {})
-Maps == { <<>>, << <<"A", 2>> >>, << <<"A", 1>>, <<"B", 2>> >>, << <<"B", 4>> >> }
-CellChoices(r) == { <<r[1], r[2], r[3], r[4], t, d, m>> : t \in {Ground, "dsp"}, d \in (IF Thorough THEN {0, 1} ELSE {0}), m \in Maps }
-RECURSIVE AllocsOf(_)
-AllocsOf(layout) == IF layout = <<>> THEN {<<>>}
-                    ELSE { <<c>> \o rest : c \in CellChoices(layout[1]), rest \in AllocsOf(Tail(layout)) }
-Allocs == UNION { AllocsOf(l) : l \in Layouts }
+\* occupancy maps, explicit zero ratios included (a module listed with 0 in a cell, as include_area_zero produces;
+\* "Z" is listed with 0 wherever it occurs: a module of total area 0)
+Maps == { <<>>, << <<"A", 2>> >>, << <<"A", 1>>, <<"B", 2>> >>, << <<"B", 4>> >>, << <<"A", 0>>, <<"B", 2>> >>, << <<"Z", 0>> >> }
+\* the first cell takes either tag, the others are ground cells
+CellChoices(r, first) == { <<r[1], r[2], r[3], r[4], t, d, m>> : t \in (IF first THEN {Ground, "dsp"} ELSE {Ground}),
+                                                               d \in (IF Thorough THEN {0, 1} ELSE {0}), m \in Maps }
+RECURSIVE AllocsOf(_, _)
+AllocsOf(layout, first) == IF layout = <<>> THEN {<<>>}
+                           ELSE { <<c>> \o rest : c \in CellChoices(layout[1], first), rest \in AllocsOf(Tail(layout), FALSE) }
+Allocs == UNION { AllocsOf(l, TRUE) : l \in Layouts }
 AllocOps == {"none", "refine", "griddify", "uniform"}
 
 \* generator sizes
@@ -370,7 +374,8 @@ Sources(p) == CASE p = "die" -> Dies
                 [] p = "alloc" -> Allocs
                 [] p = "netgen" -> GenParams
                 [] p \in {"floorset_fpef", "floorset_dief"} -> Instances
-                [] p = "rect_netlist" -> { a \in Allocs : AMods(a) # <<>> }        \* something is allocated
+                \* the rect stage starts from an allocation in which something is allocated and nothing is listed with 0
+                [] p = "rect_netlist" -> { a \in Allocs : AMods(a) # <<>> /\ \A i \in DOMAIN a : \A k \in DOMAIN a[i][7] : a[i][7][k][2] > 0 }
                 [] p = "rect_solution" -> Solutions
                 [] p = "legal" -> LegalNetlists
 
